@@ -57,17 +57,20 @@ KWMENU = {
 }
 KWLIST = sorted(KWMENU)
 
-PARENT_PROPS = [("a", "Integer()", True, None), ("b", "String(default='d')", False, None)]
+PARENT_PROPS = [("a", "Integer()", True, None), ("b", "String(default='d')", False, None), ("m", "Detail", False, None)]
 MOVES = {
     "none": [],
     "add": [("c", "Boolean()", True, None)],
     "override": [("a", "String()", False, None)],
     "add_renamed": [("class_", "Integer(default=1)", False, "class")],
     "override_required": [("b", "String()", True, None)],
+    # the parent's model-valued property is replaced: the model it referred to is reachable through the parent only
+    "override_model": [("m", "Null()", False, None)],
 }
 ELEMS = {
     "Integer()": lambda: Integer(), "String()": lambda: String(), "String(default='d')": lambda: String(default="d"),
     "Boolean()": lambda: Boolean(), "Integer(default=1)": lambda: Integer(default=1), "Null()": lambda: Null(),
+    "Detail": lambda: Object.inline("Detail", properties={"n": Property(Integer(), required=True)}),
 }
 
 
